@@ -76,6 +76,15 @@ func (e *BE) contractFor(fn *ssa.Function) *Contract {
 		if bytesLike(rt) && !strings.Contains(name, "Clone") {
 			add = []CIneq{cLE(cLenR(i), cLenP(firstBytes))}
 		}
+		if hasErr && bytesLike(rt) && !strings.Contains(name, "Clone") && sig.Recv() == nil {
+			// G4 locality: a bytes-like result is a view into the value's own last n bytes of the input
+			for j := 0; j < rs.Len(); j++ {
+				if b, ok := rs.At(j).Type().Underlying().(*types.Basic); ok && b.Kind() == types.Int {
+					exact := typeIs(rt, pkgPath("internal/types"), "Value")
+					c.Locality = append(c.Locality, Locality{Res: i, N: j, Param: firstBytes, Exact: exact})
+				}
+			}
+		}
 		if hasErr {
 			c.PostOK = append(c.PostOK, add...)
 		} else if b, ok := rt.Underlying().(*types.Basic); ok && b.Kind() == types.Int && rs.Len() == 2 && i == 1 && sig.Recv() == nil {
@@ -109,10 +118,10 @@ func init() {
 	ex["internal/decode.decodeType"] = &Contract{Post: []CIneq{cGE(cR(1), cK(0)), cLE(cR(1), cK(1)), cLE(cR(1), cLenP(0))}}
 	ex["internal/decode.decodeSize"] = &Contract{Post: []CIneq{cLE(cR(1), cLenP(0)), cGE(cR(1), cK(-1)), cLE(cR(1), cK(5))}}
 	for _, n := range []string{"decodeBytesData", "decodeStringData"} {
-		ex["internal/decode."+n] = &Contract{PostOK: []CIneq{cLE(cLenR(0), cP(1)), cGE(cLenR(0), cP(1)), cLE(cP(1), cLenP(0))}}
+		ex["internal/decode."+n] = &Contract{PostOK: []CIneq{cLE(cLenR(0), cP(1)), cGE(cLenR(0), cP(1)), cLE(cP(1), cLenP(0))}, Locality: []Locality{{Res: 0, N: -1, Param: 0}}}
 	}
 	for _, n := range []string{"decodeListTable", "decodeMessageTable"} {
-		ex["internal/decode."+n] = &Contract{PostOK: []CIneq{cLE(cLenR(0), cP(1)), cGE(cLenR(0), cP(1)), cLE(cP(1), cLenP(0))}}
+		ex["internal/decode."+n] = &Contract{PostOK: []CIneq{cLE(cLenR(0), cP(1)), cGE(cLenR(0), cP(1)), cLE(cP(1), cLenP(0))}, Locality: []Locality{{Res: 0, N: -1, Param: 0}}}
 	}
 	tablePost := func() *Contract {
 		return &Contract{PostOK: []CIneq{
@@ -211,6 +220,8 @@ func (st *solveState) substLin(l Lin) Lin {
 				rep = e.fieldLin(to, k.path, k.kind)
 			case k.kind == 'v':
 				rep = e.expand(to)
+			case k.kind == 'o':
+				rep, _ = e.offOf(to)
 			default:
 				rep = e.lenOf(to, k.kind)
 			}
@@ -363,6 +374,30 @@ func (st *solveState) callFacts(call *ssa.Call) {
 		for _, p := range con.PostOK {
 			if q, ok := safe(p); ok {
 				st.addIneq(q)
+			}
+		}
+		// locality of bytes-like results, relative to the argument: o >= len(arg) - n, o + len(res) <= len(arg)
+		for _, lc := range con.Locality {
+			if lc.Res >= len(env.results) || lc.N >= len(env.results) || env.results[lc.Res] == nil || (lc.N >= 0 && env.results[lc.N] == nil) || lc.Param >= len(env.params) {
+				continue
+			}
+			o := linVar(e.id(vkey{env.results[lc.Res], "", 'o'}))
+			ln := e.lenOf(env.results[lc.Res], 'l')
+			al := e.lenOf(env.params[lc.Param], 'l')
+			if lc.N < 0 { // suffix of the argument
+				st.addIneq(leq(o.add(ln), al))
+				st.addIneq(geq(o.add(ln), al))
+				st.addIneq(geq(o, linConst(0)))
+				continue
+			}
+			n := e.expand(env.results[lc.N])
+			st.addIneq(geq(o, al.sub(n)))
+			st.addIneq(leq(o.add(ln), al))
+			st.addIneq(geq(o, linConst(0)))
+			if lc.Exact {
+				st.addIneq(leq(o, al.sub(n)))
+				st.addIneq(leq(ln, n))
+				st.addIneq(geq(ln, n))
 			}
 		}
 	}
@@ -1185,4 +1220,102 @@ func (e *BE) verifyReturn(fc *fnCtx, ret *ssa.Return, obs *[]Oblig) {
 		}
 		do("post", "postcondition when err == nil", extra, goals)
 	}
+	// locality of returned views (ok returns)
+	if len(con.Locality) > 0 {
+		rs := sig.Results()
+		errv := ret.Results[rs.Len()-1]
+		if knownNonNil(errv) {
+			return
+		}
+		extra := &factSet{}
+		if !isNilConst(errv) {
+			extra.atoms = append(extra.atoms, Atom{V: errv, IsNil: true})
+		}
+		for _, lc := range con.Locality {
+			res := unspill(ret.Results[lc.Res])
+			if isNilConst(res) {
+				continue // no data returned
+			}
+			if c, ok := res.(*ssa.Const); ok && c.Value != nil {
+				continue // constant (empty string)
+			}
+			off, base := e.offOf(res)
+			ln := e.lenOf(res, 'l')
+			bl := e.lenOf(fc.fn.Params[lc.Param], 'l')
+			n := linConst(0)
+			if lc.N >= 0 {
+				n = e.expand(ret.Results[lc.N])
+			}
+			desc := fmt.Sprintf("locality: returned %s is a view into the last n bytes of %s", ret.Results[lc.Res].Type(), fc.fn.Params[lc.Param].Name())
+			if base != ssa.Value(fc.fn.Params[lc.Param]) {
+				// a phi of views / of nil: decide by the linear facts only if every incoming value derives from the parameter
+				if !e.derivesFrom(res, fc.fn.Params[lc.Param], 0) {
+					// zero-length results carry no data
+					budget := 300
+					if fc.prove(leq(ln, linConst(0)), ret.Block(), extra, nil, 5, &budget) {
+						continue
+					}
+					*obs = append(*obs, Oblig{Kind: "local", At: ret, Desc: desc, OK: false, Why: "the returned bytes are not a slice of the input parameter"})
+					continue
+				}
+			}
+			goals := []Ineq{geq(off, bl.sub(n)), leq(off.add(ln), bl)}
+			if lc.N < 0 {
+				goals = []Ineq{leq(off.add(ln), bl), geq(off.add(ln), bl)}
+				desc = fmt.Sprintf("locality: the returned data is a suffix of %s", fc.fn.Params[lc.Param].Name())
+			}
+			if lc.Exact {
+				goals = append(goals, leq(off, bl.sub(n)), leq(ln, n), geq(ln, n))
+				desc = fmt.Sprintf("locality: the returned value is exactly the last n bytes of %s", fc.fn.Params[lc.Param].Name())
+			}
+			do("local", desc, extra, goals)
+		}
+	}
+}
+
+// derivesFrom: v is obtained from parameter p by slicing only (through phis, casts and module calls on slices of p).
+func (e *BE) derivesFrom(v ssa.Value, p *ssa.Parameter, depth int) bool {
+	if depth > 8 {
+		return false
+	}
+	switch x := v.(type) {
+	case *ssa.Parameter:
+		return x == p
+	case *ssa.Slice:
+		return e.derivesFrom(x.X, p, depth+1)
+	case *ssa.ChangeType:
+		return e.derivesFrom(x.X, p, depth+1)
+	case *ssa.Phi:
+		for _, ed := range x.Edges {
+			if isNilConst(ed) {
+				continue
+			}
+			if !e.derivesFrom(ed, p, depth+1) {
+				return false
+			}
+		}
+		return true
+	case *ssa.UnOp:
+		if x.Op == token.MUL && stringHeaderCast(x) {
+			al := x.X.(*ssa.Convert).X.(*ssa.Convert).X.(*ssa.Alloc)
+			if val, rest, ok := e.storedValue(al, nil, x); ok && len(rest) == 0 {
+				return e.derivesFrom(val, p, depth+1)
+			}
+		}
+	case *ssa.Extract:
+		if call, ok := x.Tuple.(*ssa.Call); ok && len(call.Call.Args) > 0 && call.Call.StaticCallee() != nil {
+			if con := e.contractFor(call.Call.StaticCallee()); con != nil {
+				for _, lc := range con.Locality {
+					if lc.Res == x.Index {
+						return e.derivesFrom(call.Call.Args[lc.Param], p, depth+1)
+					}
+				}
+				// explicit data helpers (decodeBytesData etc.) return a slice of their first argument
+				if bytesLike(call.Call.Args[0].Type()) && x.Index == 0 {
+					return e.derivesFrom(call.Call.Args[0], p, depth+1)
+				}
+			}
+		}
+	}
+	return false
 }
